@@ -284,6 +284,15 @@ func runC01(r *core.Run) {
 			return core.Outcome{Class: fmt.Sprint("len%80=", min(c.Len%80, 2), " ", c.Layout), Nontrivial: c.Len >= 2, Evals: 2}
 		})
 
+	marshalHistories(r, "fasta", func() []marshaller {
+		var out []marshaller
+		for _, rc := range []faRec{{"a", "ACGT"}, {"", ""}, {"longer name", core.S(longSeq(170))}, {">", "A"}, {"b", core.S(longSeq(80))}, {"c c", core.S(longSeq(81))}} {
+			f := &fasta.Fasta{Name: rc.Name.B(), Sequence: rc.Seq.B()}
+			out = append(out, marshaller{fmt.Sprintf("{%q, %d bases}", rc.Name, len(rc.Seq)), f.MarshalText, func(w *bytes.Buffer) error { return f.Write(w) }})
+		}
+		return out
+	})
+
 	lpool := faPool([]string{"", "a", ">"}, enum.AllStrings("AC", 3))
 	lmax := 2
 	r.Bound("layouts", fmt.Sprintf("every list of 0..%d records over names {'',a,>} x sequences {A,C}^<=3; every composition of every sequence into lines x every subset of blank lines between lines x {LF, CRLF}%s x final newline kept/omitted", lmax, core.Pick(r, "", " (thorough: every per-line LF/CRLF assignment for lists of <= 1 record)")))
